@@ -4,6 +4,7 @@
 mod exec;
 mod model;
 mod ops;
+mod parse;
 mod report;
 mod scenario;
 
@@ -56,13 +57,38 @@ fn run(args: &[String]) -> Result<i32, String> {
             let engine = args.get(2).ok_or("engine")?;
             let input = args.get(3).ok_or("input")?;
             let out = args.get(4).ok_or("report path")?;
+            // read all cases, then replay them on all cores (cases are independent)
+            let mut cases: Vec<J> = Vec::new();
+            let n = for_each_case(input, |case| cases.push(case.clone()))?;
+            let threads = std::env::var("CONFORM_THREADS").ok().and_then(|s| s.parse().ok()).unwrap_or(14usize).max(1);
+            let chunk = (cases.len() + threads - 1) / threads.max(1);
             let mut rep = report::Report::default();
-            let n = for_each_case(input, |case| match engine.as_str() {
-                "ops" => ops::replay_case(case, &mut rep),
-                "prog" => scenario::replay_prog(case, &mut rep),
-                "scenario" => scenario::replay_scenario(case, &mut rep),
-                _ => rep.tool_error(format!("unknown engine {engine}")),
-            })?;
+            let engine_s = engine.clone();
+            let parts: Vec<report::Report> = std::thread::scope(|sc| {
+                let hs: Vec<_> = cases
+                    .chunks(chunk.max(1))
+                    .map(|part| {
+                        let engine = engine_s.clone();
+                        sc.spawn(move || {
+                            let mut rep = report::Report::default();
+                            for case in part {
+                                match engine.as_str() {
+                                    "ops" => ops::replay_case(case, &mut rep),
+                                    "prog" => scenario::replay_prog(case, &mut rep),
+                                    "scenario" => scenario::replay_scenario(case, &mut rep),
+                                    "parse" => parse::replay_parse(case, &mut rep),
+                                    _ => rep.tool_error(format!("unknown engine {engine}")),
+                                }
+                            }
+                            rep
+                        })
+                    })
+                    .collect();
+                hs.into_iter().map(|h| h.join().unwrap_or_else(|_| { let mut r = report::Report::default(); r.tool_error("replay thread panicked".into()); r })).collect()
+            });
+            for p in parts {
+                rep.merge(p);
+            }
             if n == 0 {
                 return Err(format!("no cases in {input}"));
             }
